@@ -1439,6 +1439,9 @@ def randmio_dir_signed(R, itr, seed=None):
     rng = get_rng(seed)
     R = R.copy()
     n = len(R)
+    if n < 4:
+        # a swap needs four distinct nodes: nothing can be rewired
+        return R, 0
 
     itr = itr * (n * (n - 1))  # not in place: a 0-d array passed as itr must stay as it was
 
@@ -1600,6 +1603,9 @@ def randmio_und_signed(R, itr, seed=None):
     rng = get_rng(seed)
     R = R.copy()
     n = len(R)
+    if n < 4:
+        # a swap needs four distinct nodes: nothing can be rewired
+        return R, 0
 
     itr = itr * (int(n * (n -1) / 2))  # not in place: a 0-d array passed as itr must stay as it was
 
